@@ -3,6 +3,7 @@ package props
 import (
 	"fmt"
 	"sort"
+	"verif/cli"
 
 	refplay "verif/ref/play"
 	"verif/ref/smf"
@@ -16,7 +17,10 @@ type playCase struct {
 	Cfg   writeCfg       `json:"cfg"`
 	Path  string         `json:"path"` // lib | cli
 	Doc   string         `json:"yaml,omitempty"`
-	Shell string         `json:"shell,omitempty"`
+	// ChordText: with path "text-cli" the piece is given as chord text and goes through
+	// `crd text conv degree | crd write`; Insts is what that text means
+	ChordText string `json:"chord_text,omitempty"`
+	Shell     string `json:"shell,omitempty"`
 }
 
 func (c *playCase) fill() {
@@ -35,6 +39,13 @@ type writeResult struct {
 }
 
 func runWrite(path, doc string, cfg writeCfg) writeResult {
+	if path == "text-cli" {
+		cv := cli.In(doc, "text", "conv", "degree")
+		if !cv.OK() {
+			return writeResult{Err: "text conv degree: " + firstLine(cv.Stderr), Crashed: cv.Crashed(), Hang: cv.TimedOut, Exit: cv.Exit, Stdout: len(cv.Stdout)}
+		}
+		doc, path = string(cv.Stdout), "cli"
+	}
 	if path == "cli" {
 		r := implWriteCLI(doc, cfg)
 		if r.OK() {
